@@ -292,6 +292,17 @@ def gen_keyed_cases(rng):
         ("select id, count(*), sum(v) from k1 group by id", False, 0),
         ("select id, count(*) from k1 where id >= %d group by id order by id" % lo, True, 1),
     ]
+    # views over the keyed tables (as they are, reordered, and over a view): the planner's key-order
+    # and key-range reasoning must not leak through a view
+    setup += ["create view kv(id, v) as select id, v from k1", "create view kw(v, id) as select v, id from k1", "create view kvv(id) as select id from kv"]
+    qs += [
+        ("select id, v from kv where id >= %d" % lo, False, 0),
+        ("select id from kv where id > %d and id <= %d order by id" % (lo, hi), True, 1),
+        ("select id from kw where id = %d" % lo, False, 0),
+        ("select id from kvv where id < %d order by id" % hi, True, 1),
+        ("select kv.id, k2.v from kv join k2 on kv.id = k2.id", False, 0),
+        ("select id, count(*) from kv group by id", False, 0),
+    ]
     return [{"setup": setup, "sql": q, "features": ["keyed-multi-rowset"], "ordered": o, "nkeys": nk} for q, o, nk in qs]
 
 
